@@ -159,7 +159,7 @@ def rule_ordarm(E, R):
                         "body uses %s, expected %s" % (ops, OPS[op]), hb["span"])
                 # operands: the cast value (left) against the literal (right)
                 t = tail(hb["body"])
-                left_is_value = t.get("k") == "Binary" and any(local_name(p) == "value" for p in exprs(t["l"], "Path")) and \
+                left_is_value = t.get("k") == "Binary" and any(is_param(p, hb, 1) for p in exprs(t["l"], "Path")) and \
                     any(local_name(p) == "self" for p in exprs(t["r"], "Path"))
                 R.check(left_is_value, rule, fn, label + " compares value <op> literal (not swapped)", where=hb["span"])
             else:
@@ -169,18 +169,24 @@ def rule_ordarm(E, R):
                 arg = strip(t["args"][0]) if ok else {}
                 ok = ok and arg.get("k") == "MethodCall" and norm(arg.get("callee", "")) == "strict_partial_ord::StrictPartialOrd::strict_partial_cmp" \
                     and norm(arg.get("resolved", "")) == IP_ORD \
-                    and any(local_name(p) == "value" for p in exprs(arg["recv"], "Path")) and root_is_field(arg["args"][0], "self", "ip")
+                    and any(is_param(p, hb, 1) for p in exprs(arg["recv"], "Path")) and root_is_field(arg["args"][0], "self", "ip")
                 R.check(ok, rule, fn, label + " is op.matches_opt(value.strict_partial_cmp(literal))",
                         "IP comparison must go through the family-strict ordering", hb["span"])
         # the IpOp literal carries the matched `op`
         for s in exprs(node if False else {"k": "x"}, "Struct"):
             pass
-    # struct IpOp { op, ip } built with the matched operator
+    # struct IpOp { op, ip } built with the matched operator: the binding of field `op` of the `Ordering { op, rhs }` pattern
+    matched_ops = set()
+    for q in walk(h["body"]):
+        if q.get("k") == "PStruct" and norm(q["res"].get("path", "")).endswith("ComparisonOpExpr::Ordering"):
+            for fld in q["fields"]:
+                if fld["name"] == "op":
+                    matched_ops |= set(pat_bindings(fld["pat"]))
     for node, st in walk_arms(h["body"]):
         if node.get("k") == "Struct" and norm(node["res"].get("path", "")).endswith("::IpOp"):
             f = {x["name"]: x["e"] for x in node["fields"]}
             arm = arm_variants(st, "OrderingOp")
-            R.check(local_name(f.get("op", {})) == "op", rule, CMP_COMPILE,
+            R.check(local_name(f.get("op", {})) in matched_ops, rule, CMP_COMPILE,
                     "%s on Ip: comparator built with the matched operator" % (arm[0] if arm else "?"), where=node["sp"])
     want = {(o, k) for o in OPS for k in ("Bytes", "Int", "Ip")}
     R.check(seen == want, rule, CMP_COMPILE, "all 6 operators x 3 types have a generated comparison",
@@ -188,7 +194,7 @@ def rule_ordarm(E, R):
     # the outer match on `op` is over the operator that was parsed
     good = False
     for m in find_matches(h["body"], r"OrderingOp$"):
-        if local_name(m["scrut"]) == "op":
+        if local_name(m["scrut"]) in matched_ops:
             good = True
     R.check(good, rule, CMP_COMPILE, "arms are selected by the parsed operator", where=h["span"])
 
@@ -212,7 +218,8 @@ def rule_ipord(E, R):
                     norm(strip(t["args"][0]).get("callee", "")) == "core::cmp::Ord::cmp"
                 if some_cmp:
                     c = strip(t["args"][0])
-                    some_cmp = local_name(c["recv"]) == "lhs" and local_name(c["args"][0]) == "rhs"
+                    comps = a["pat"]["pats"] if a["pat"].get("k") == "PTuple" else (a["pat"]["pats"][0]["pats"] if a["pat"].get("k") == "POr" else [])
+                    some_cmp = len(comps) == 2 and local_name(c["recv"]) in pat_bindings(comps[0]) and local_name(c["args"][0]) in pat_bindings(comps[1])
                 for p in prs:
                     tbl[p] = "Some(lhs.cmp(rhs))" if some_cmp else "?"
             elif a["pat"].get("k") == "PWild":
@@ -234,7 +241,7 @@ def rule_nil(E, R):
     if h:
         asg = [a for a in exprs(h["body"], "Assign")]
         ok = len(asg) == 1 and strip(asg[0]["l"]).get("name") == "nil_not_equal_is_false" and \
-            strip(asg[0]["r"]).get("k") == "Unary" and strip(asg[0]["r"]).get("op") == "Not" and local_name(strip(asg[0]["r"])["e"]) == "behavior"
+            strip(asg[0]["r"]).get("k") == "Unary" and strip(asg[0]["r"]).get("op") == "Not" and is_param(strip(asg[0]["r"])["e"], h, 1)
         R.check(ok, rule, fs, "setter stores the negation of the requested behaviour", where=h["span"])
     else:
         R.cannot(rule, fs, "anchor not found")
@@ -319,7 +326,11 @@ def rule_logic(E, R):
     for node, st in walk_arms(h["body"]):
         if node.get("k") == "MethodCall" and node["m"] == "fold" and arm_variants(st, "LogicalOp") == ["Xor"]:
             init = strip(node["args"][0])
-            ok = init.get("k") == "MethodCall" and init["m"] == "execute" and local_name(init["recv"]) == "first"
+            ok = init.get("k") == "MethodCall" and init["m"] == "execute"
+            if ok:
+                Sx = sem.Sem(E, h, inline=False)
+                b1, _, _, m1 = sem.provenance(Sx, init["recv"], Sx.root)
+                ok = b1 is not None and m1[:1] == ["next"] and all(x in ("unwrap", "expect") for x in m1[1:])
             R.check(ok, rule, fn, "xor folds over all operands starting from the first", where=node["sp"])
 
 
@@ -339,6 +350,12 @@ def rule_prec(E, R):
     if not h:
         return R.cannot(rule, fn, "anchor not found")
     rec = [c for c in exprs(h["body"], "MethodCall", into_closures=False) if norm(c.get("callee", "")) == fn]
+    # the operator being folded: bound by `while let Some(op) = lookahead.0`
+    cur_ops = set()
+    for q in exprs(h["body"], "LetExpr"):
+        i_ = strip(q["init"])
+        if i_.get("k") == "Field" and i_.get("name") == "0" and is_param(i_["e"], h, 3):
+            cur_ops |= set(pat_bindings(q["pat"]))
     R.floor(rule, "recursive calls of lex_more_with_precedence", len(rec), 1)
     for c in rec:
         pre = preceding_stmts(h["body"], c) or []
@@ -348,24 +365,24 @@ def rule_prec(E, R):
                 cond = strip(i["cond"])
                 if cond.get("k") == "Binary" and cond["op"] == "Le" and list(exprs(i["then"], "Break")):
                     l, r = strip(cond["l"]), strip(cond["r"])
-                    is_la = l.get("k") == "Field" and l["name"] == "0" and local_name(l["e"]) == "lookahead"
-                    is_some_op = r.get("k") == "Call" and norm(r.get("callee", "")) == "core::option::Option::Some" and local_name(r["args"][0]) == "op"
+                    is_la = l.get("k") == "Field" and l["name"] == "0" and is_param(l["e"], h, 3)
+                    is_some_op = r.get("k") == "Call" and norm(r.get("callee", "")) == "core::option::Option::Some" and local_name(r["args"][0]) in cur_ops
                     guard = guard or (is_la and is_some_op)
         R.check(guard, rule, fn, "recursion only for a strictly tighter operator (`lookahead.0 <= Some(op)` breaks first)",
                 "with `<` instead of `<=` an equal-precedence chain would recurse without bound and associate to the right", c["sp"])
         # min_prec argument is lookahead.0
         args = c["args"]
         a1 = strip(args[1]) if len(args) > 1 else {}
-        ok = a1.get("k") == "Field" and a1.get("name") == "0" and local_name(a1["e"]) == "lookahead"
+        ok = a1.get("k") == "Field" and a1.get("name") == "0" and is_param(a1["e"], h, 3)
         R.check(ok, rule, fn, "the nested call's lower bound is the operator just seen", where=c["sp"])
     # the reset
     reset = False
     for i in exprs(h["body"], "If", into_closures=False):
         cond = strip(i["cond"])
-        if cond.get("k") == "Binary" and cond["op"] == "Lt" and local_name(cond["r"]) == "min_prec":
+        if cond.get("k") == "Binary" and cond["op"] == "Lt" and is_param(cond["r"], h, 2):
             l = strip(cond["l"])
-            if l.get("k") == "Field" and l["name"] == "0" and local_name(l["e"]) == "lookahead":
-                asg = [x for x in exprs(i["then"], "Assign") if local_name(x["l"]) == "lookahead"]
+            if l.get("k") == "Field" and l["name"] == "0" and is_param(l["e"], h, 3):
+                asg = [x for x in exprs(i["then"], "Assign") if is_param(x["l"], h, 3)]
                 reset = len(asg) == 1 and def_path(strip(asg[0]["r"]).get("es", [{}])[0]) == "core::option::Option::None"
     R.check(reset, rule, fn, "an operator looser than min_prec is handed back to the caller", where=h["span"])
     # entry: lex_with starts with min_prec None
@@ -383,7 +400,15 @@ def rule_prec(E, R):
         for a_ in m["arms"]:
             if "guard" in a_:
                 g = strip(a_["guard"])
-                if g.get("k") == "Binary" and g["op"] == "Eq" and {local_name(g["l"]), local_name(g["r"])} == {"lhs_op", "op"}:
+                node_ops = set()
+                for q in walk(a_["pat"]):
+                    if q.get("k") == "PStruct" and norm(q["res"].get("path", "")).endswith("LogicalExpr::Combining"):
+                        for fld in q["fields"]:
+                            if fld["name"] == "op":
+                                node_ops |= set(pat_bindings(fld["pat"]))
+                sides = [local_name(g["l"]), local_name(g["r"])] if g.get("k") == "Binary" else []
+                if g.get("k") == "Binary" and g["op"] == "Eq" and ((sides[0] in node_ops and sides[1] in cur_ops) or
+                                                                    (sides[1] in node_ops and sides[0] in cur_ops)):
                     flat = any(c["m"] == "push" for c in exprs(a_["body"], "MethodCall"))
     R.check(flat, rule, fn, "same-operator chains are flattened into one Combining node", where=h["span"])
 
